@@ -21,7 +21,7 @@ CLAIMS = {
                 note="Trusted: RocksDB model (reopen = new object over the same rows); process restart with real RocksDB is outside."),
     "C04": dict(tech=KANI + "; " + SMT, ref="§6 C04", text="The crash point is a symbolic write budget in the RocksDB model: after a table commit cut at ANY write the disk never holds a new latest value with an old history, a cut block-table commit leaves a prefix, and the cut states roll back correctly (a stale latest row is rewritten, rows above a hole are deleted). The table order of commit_changes (block-number->hash table committed before any versioned table) and of reorg (rolled back after every versioned table), and that nothing is written after a failed step, are decided on the MIR paths of the two functions (SMT). NOT decided: the whole-database commit as one solver run with a symbolic budget across tables (DESIGN.md 11.2).",
                 note="Trusted: single RocksDB writes are atomic and durable when they return Ok (model); torn writes and revm-internal crashes are outside."),
-    "C05": dict(tech=KANI + "; " + SMT, ref="§6 C05", text="The waiting-tx guard of commit / reorg / mine, the engine-level reorg acceptance and the exactly-one-encoding rule are compared with reference predicates written from the property text for all symbolic arguments and engine states, and refusals are shown to happen before any lock write or storage write. validate_next_tx is compared with its reference predicate (tx_idx = count, same timestamp and hash, block number and hash unknown) with alloc::fmt::format stubbed; the database-level depth guard of reorg, and that finalise_block takes no write lock unless validate_next_tx of that very call returned Ok before (E8), are decided from the MIR paths of the functions (SMT). NOT decided: that a call rejected after EVM execution started leaves nothing behind.",
+    "C05": dict(tech=KANI + "; " + SMT, ref="§6 C05", text="The waiting-tx guard of commit / reorg / mine, the engine-level reorg acceptance and the exactly-one-encoding rule are compared with reference predicates written from the property text for all symbolic arguments and engine states, and refusals are shown to happen before any lock write or storage write. validate_next_tx is compared with its reference predicate (tx_idx = count, same timestamp and hash, block number and hash unknown) with alloc::fmt::format stubbed; the database-level depth guard of reorg, and that finalise_block and add_tx_to_block take no write lock unless validate_next_tx of that very call returned Ok before (E8, E9), are decided from the MIR paths of the functions (SMT). NOT decided: that a call rejected after EVM execution started leaves nothing behind.",
                 note="Errors raised after partial EVM execution and RPC parameter decoding are outside."),
     "C09": dict(tech=KANI, ref="§6 C09", text="Absence of panics for all inputs up to stated sizes in the request-reachable pure code CBMC can carry: payload decoder after base64 (empty payload, raw and unknown prefixes; zstd and nada branches in the thorough tier), lock-script builder, generated block hash; mine refused mid-block.",
                 note="revm on arbitrary bytecode, Bitcoin-RPC precompiles, jsonrpsee typing are outside; base64/zstd/nada are stubbed or trusted as listed in the evidence."),
